@@ -35,6 +35,18 @@ func drawSgxValues(t *rapid.T, s *gen.Stream) *gen.SgxValues {
 	v.PPID[0] |= 0x10
 	v.PceID[0] |= 0x10
 	v.Fmspc[0] |= 0x10
+	// ... but a value of exactly the RIGHT size whose first bytes happen to read like the header of a DER octet string
+	// of the remaining length is just a value: it is what extraction returns
+	switch rapid.IntRange(0, 15).Draw(t, "valueLooksLikeDER") {
+	case 0:
+		v.PPID[0], v.PPID[1] = 0x04, 0x0e
+	case 1:
+		v.Fmspc[0], v.Fmspc[1] = 0x04, 0x04
+	case 2:
+		v.CpuSvn[0], v.CpuSvn[1] = 0x04, 0x0e
+	case 3:
+		v.PceID = [2]byte{0x04, 0x00}
+	}
 	return v
 }
 
